@@ -65,6 +65,7 @@ def run(ctx):
     n = 6 if thorough else 1
     cases = poolrun.make_cases(ctx, 35 * n, 35 * n, 25 * n, 15 * n, cfgs, faults=False)
     res = runner.run_cases(cases, rexe)
+    exec_cov = poolrun.exec_lockstep(ctx, res, rexe)
     ops = 0; div = 0; per = {}; checked = 0
     for r in res:
         kind, tgt, c = r['case']['tag']; per[kind] = per.get(kind, 0) + 1
@@ -105,7 +106,7 @@ def run(ctx):
     ctx.cov.update(dict(
         joint_cases_checked=joint_checked,
         tie=dict(kind='results replayed against the models (pools: must be runs of ceil(bytes/node size) consecutive free nodes; stacks/iteration: exact address); every byte of count*size is written and read back by the harness; alignment of every result checked against the request',
-                 configs=cfgs, histories_by_kind=per, histories=len(cases), operations=ops, successful_allocations_checked=checked, divergences=div),
+                 configs=cfgs, histories_by_kind=per, histories=len(cases), operations=ops, exec_pool=exec_cov, successful_allocations_checked=checked, divergences=div),
         evaluations=len(cases), distinct_nontrivial=len(set(c['script'] for c in cases)),
         rule='seeded histories with sizes around node/bucket boundaries, arrays whose element size differs from the node size, alignments up to 4096 on stacks and iteration allocators, fence sizes 0/8/16; distinct = distinct scripts'))
     if res:
